@@ -376,12 +376,16 @@ P('C16', claimed=True, level='other',
               '_find_available (an exact-size freed block, else a larger freed one, else the untouched area at '
               'the high-water mark, "no space" only when that is too small or in use) and free (no effect unless '
               'the address holds a used block; released and booked; the block joined with a free previous '
-              'neighbour is the one carried into the search for and the join with the next neighbour). The '
+              'neighbour is the one carried into the search for and the join with the next neighbour), __init__ '
+              '(one free block over the partition above the reserved numbers), alloc (no space iff nothing found, '
+              'else the found block reserved from its start for n), _reserve (gap below the address stays free, '
+              'exactly the range [addr, addr+size) marked in use, every split inside its block) and the two '
+              'free-list operations. The '
               'ContiguousBlockAllocator as a whole is checked against an interval-set model over ALL '
               'histories of length <= 7 and ALL internal tie-breaks (bounded, exhaustive small scope), '
               'plus bus/buffer objects per client.'),
-  level_note=('The allocator invariant ties an index array, a dict of sets and two cursors: alloc/reserve/free as a '
-              'whole are bounded only; in the contracts of its parts the table is an uninterpreted array and the '
+  level_note=('The allocator invariant ties an index array, a dict of sets and two cursors: every method except reserve '
+              '(no caller in the library) is under contract, but the GLOBAL invariant over histories (no two live ranges overlap) is bounded only; in the contracts of its parts the table is an uninterpreted array and the '
               'free lists are ghost events. Bit operations modelled arithmetically with a disjointness side condition.'))
 
 P('C17', claimed=True, level='other', contracts=['base_netaddr_bind', 'synth_node_cmds', 'synth_bus_cmds', 'synth_buffer_cmds'], drivers=['vf.drivers.C17'],
